@@ -261,6 +261,11 @@ def run(prop, tier, seed, replay=None):
                 continue
         if v["found_input"]:
             line = "VIOLATION property=%s replay=%s" % (pid, v["replay"])
+        elif any(w["found_input"] for w in violations):
+            # a failing input was found: it is the replay; what no longer checks is said beside it
+            log("# no longer checks: " + (v.get("what") or "") + " " + v["text"][:1200].replace("\n", "\n# "))
+            exit_code = 1
+            continue
         else:
             rp = replay_path(pid, "unproved-%s" % v["kind"])
             core.write_json(rp, {"property": pid, "no_longer_checks": v.get("what"), "detail": v["text"],
